@@ -32,7 +32,7 @@ def random_cfg(rnd, inv):
     cfgv[cl.SNAP_DID] = pick([2, 2, 1, 3, 4, 8, 0, 9])
     cfgv[cl.EXT_SIZE] = pick([-1, 0, 1, 2, 5, 4095, 4096]) if inv.cfg.get(cl.EXT_SIZE) is None else inv.cfg[cl.EXT_SIZE]
     if inv.cfg.get(cl.ALGO) is None:
-        cfgv[cl.ALGO] = pick([0, 1, 2, 3, 4, 5, 6])
+        cfgv[cl.ALGO] = pick([0, 1, 2, 3, 4, 5, 6, 7])
     cfgv[cl.ALGO_PRM] = pick([-1, 0, 7, 300])
     return cfgv
 
@@ -93,7 +93,7 @@ def gen(seed, n):
     for _ in range(n):
         inv = rnd.choice(invs)
         if inv.name not in variants:
-            variants[inv.name] = [(a, b) for _, a, b, t in argspace.variants(inv, random.Random(1), 'quick')
+            variants[inv.name] = [(a, b) for o, a, b, t in argspace.variants(inv, random.Random(1), 'quick') if 'dids' not in o
                                   if not (b and max(len(x) for x in b) > 300)][:4000]
         cfgv = random_cfg(rnd, inv)
         dt = rnd.choice(TABLES) if inv.dids is None else inv.dids
